@@ -1,122 +1,1804 @@
+// C10 harness: reorganisation leaves exactly the state of the winning branch.
+//
+// Every scenario builds, with the REAL worker / StateProcessor / HeaderChain of the zone mini
+// node (core.VerifNewZone), a base chain and two or three branches from a common ancestor, each
+// branch on its own straight-line "builder" node (a node that never sees another branch: the
+// oracle). A third "test" node on the backend under test (memorydb / leveldb / pebble) receives
+// all blocks as side blocks and is switched between arbitrary blocks of the tree with the real
+// HeaderChain.SetCurrentHeader. After each switch the full image (all 'ut' and 'cl' records,
+// canonical number->hash map, head hash, in-memory head) is compared with the oracle, with the
+// image taken the last time the node was at that block, and with what the undo records say;
+// the same data goes to the Coq model (Model/C10.v) which recomputes the post state.
+// A second family of cases drives vm.AddNewLock directly (undo bytes of lockup updates).
 package main
 
 import (
+	"bytes"
+	"crypto/ecdsa"
+	"encoding/binary"
 	"fmt"
 	"math/big"
 	"os"
+	"path/filepath"
+	"sort"
+	"strings"
+	"time"
 
 	"github.com/btcsuite/btcd/btcec/v2"
 	"github.com/btcsuite/btcd/btcec/v2/schnorr"
+	"github.com/btcsuite/btcd/btcec/v2/schnorr/musig2"
 	"github.com/dominant-strategies/go-quai/common"
 	"github.com/dominant-strategies/go-quai/core"
 	"github.com/dominant-strategies/go-quai/core/rawdb"
+	"github.com/dominant-strategies/go-quai/core/state"
 	"github.com/dominant-strategies/go-quai/core/types"
+	"github.com/dominant-strategies/go-quai/core/vm"
 	"github.com/dominant-strategies/go-quai/crypto"
+	"github.com/dominant-strategies/go-quai/ethdb"
+	"github.com/dominant-strategies/go-quai/ethdb/leveldb"
+	"github.com/dominant-strategies/go-quai/ethdb/memorydb"
+	"github.com/dominant-strategies/go-quai/ethdb/pebble"
 	"github.com/dominant-strategies/go-quai/log"
 	"github.com/dominant-strategies/go-quai/params"
+
 	"verifharness/hlib"
 )
 
-func grind(r *hlib.Rng, loc common.Location, qi bool) (*btcec.PrivateKey, common.Address) {
-	for {
-		k, _ := btcec.PrivKeyFromBytes(r.Bytes(32))
-		pub := k.PubKey().SerializeUncompressed()
-		a := crypto.PubkeyBytesToAddress(pub, loc)
-		if !a.Location().Equal(loc) {
-			continue
-		}
-		if a.IsInQiLedgerScope() == qi {
-			return k, a
-		}
-	}
-}
+var (
+	loc    = common.Location{0, 0}
+	logger *log.Logger
+	tmpDir string
+)
 
-func main() {
-	logger := hlib.QuietLogs()
-	if os.Getenv("VLOG") != "" {
-		log.Global.SetOutput(os.Stderr)
-	}
+// ---------------------------------------------------------------- schedule (test network)
+
+func setSchedule() {
 	params.TimeToStartTx = 0
 	params.ControllerKickInBlock = 0
 	params.CoinbaseLockupPrecompileKickInHeight = 0
 	params.ConversionLockPeriod = 2
 	params.LockupByteToBlockDepth = [4]uint64{2, 4, 6, 8}
 	params.CoinbaseEpochBlocks = 4
-	for i := uint8(0); i <= 5; i++ {
-		types.TrimDepths[i] = uint64(3 + i)
+	for i := uint8(0); i <= types.MaxTrimDenomination; i++ {
+		types.TrimDepths[i] = uint64(2 + i%3)
 	}
-	db := rawdb.NewMemoryDatabase(logger)
-	loc := common.Location{0, 0}
-	r := hlib.NewRng(1)
-	_, qa := grind(r, loc, false)
-	_, qi := grind(r, loc, true)
-	k2, qi2 := grind(r, loc, true)
-	_, qi3 := grind(r, loc, true)
-	_, far := grind(r, common.Location{0, 1}, true)
-	var spendable []types.OutPoint
-	_ = k2
-	z, err := core.VerifNewZone(db, core.VerifZoneOptions{Location: loc, QuaiCoinbase: qa, QiCoinbase: qi, GenesisTime: 1000}, logger)
+	core.DefaultTxPoolConfig.ReorgFrequency = 5 * time.Millisecond
+}
+
+// ---------------------------------------------------------------- identities (ground once per run)
+
+type identities struct {
+	qiK          [3]*btcec.PrivateKey
+	qiA          [3]common.Address
+	quaiK        *ecdsa.PrivateKey
+	quaiA        common.Address
+	quaiCoinbase common.Address
+	qiCoinbase   common.Address
+	miners       [2]common.Address // Quai beneficiaries of lockups
+	qiMiner      common.Address    // Qi beneficiary of lockups
+	delegates    [3]common.Address
+	farQi        common.Address
+	farQuai      common.Address
+	convSender   common.Address
+	contract     common.Address
+	deployCode   []byte
+	lockupAddr   common.Address
+}
+
+var id identities
+
+func mkAddr(r *hlib.Rng, prefix byte, qi bool) common.Address {
+	b := r.Bytes(20)
+	b[0] = prefix
+	if qi {
+		b[1] |= 0x80
+	} else {
+		b[1] &= 0x7f
+	}
+	return common.BytesToAddress(b, loc)
+}
+
+func grindQi(r *hlib.Rng) (*btcec.PrivateKey, common.Address) {
+	for {
+		k, _ := btcec.PrivKeyFromBytes(r.Bytes(32))
+		a := crypto.PubkeyBytesToAddress(k.PubKey().SerializeUncompressed(), loc)
+		if a.Location().Equal(loc) && a.IsInQiLedgerScope() {
+			if _, err := a.InternalAndQiAddress(); err == nil {
+				return k, a
+			}
+		}
+	}
+}
+
+func grindQuai(r *hlib.Rng) (*ecdsa.PrivateKey, common.Address) {
+	for {
+		k, err := crypto.ToECDSA(r.Bytes(32))
+		if err != nil {
+			continue
+		}
+		a := crypto.PubkeyToAddress(k.PublicKey, loc)
+		if a.Location().Equal(loc) && a.IsInQuaiLedgerScope() {
+			if _, err := a.InternalAndQuaiAddress(); err == nil {
+				return k, a
+			}
+		}
+	}
+}
+
+func makeIdentities() {
+	r := hlib.NewRng(424242) // fixed: identities do not depend on the run seed (keeps replays cheap and stable)
+	for i := range id.qiK {
+		id.qiK[i], id.qiA[i] = grindQi(r)
+	}
+	id.quaiK, id.quaiA = grindQuai(r)
+	id.quaiCoinbase = mkAddr(r, 0, false)
+	id.qiCoinbase = mkAddr(r, 0, true)
+	id.miners[0], id.miners[1] = mkAddr(r, 0, false), mkAddr(r, 0, false)
+	id.qiMiner = mkAddr(r, 0, true)
+	for i := range id.delegates {
+		id.delegates[i] = mkAddr(r, 0, false)
+	}
+	id.farQi = mkAddr(r, 1, true)
+	id.farQuai = mkAddr(r, 1, false)
+	id.convSender = mkAddr(r, 0, false)
+	vm.InitializePrecompiles(loc)
+	id.lockupAddr = vm.LockupContractAddresses[[2]byte{loc[0], loc[1]}]
+	// forwarder: CALL(gas, lockupContract, 0, calldata) ; STOP  — msg.sender of the precompile = this contract
+	runtime := []byte{0x36, 0x60, 0x00, 0x60, 0x00, 0x37, 0x60, 0x00, 0x60, 0x00, 0x36, 0x60, 0x00, 0x60, 0x00, 0x73}
+	runtime = append(runtime, id.lockupAddr.Bytes()...)
+	runtime = append(runtime, 0x5a, 0xf1, 0x00)
+	code := []byte{0x60, byte(len(runtime)), 0x80, 0x60, 0x0b, 0x60, 0x00, 0x39, 0x60, 0x00, 0xf3}
+	code = append(code, runtime...)
+	for i := 0; ; i++ {
+		c := append(append([]byte{}, code...), byte(i), byte(i>>8))
+		a := crypto.CreateAddress(id.quaiA, 0, c, loc)
+		if _, err := a.InternalAndQuaiAddress(); err == nil {
+			id.contract, id.deployCode = a, c
+			break
+		}
+	}
+}
+
+func qiKeyOf(addr []byte) int {
+	for i := range id.qiA {
+		if bytes.Equal(id.qiA[i].Bytes(), addr) {
+			return i
+		}
+	}
+	return -1
+}
+
+// ---------------------------------------------------------------- databases
+
+func newBackend(kind string) (ethdb.Database, func()) {
+	switch kind {
+	case "leveldb":
+		dir, _ := os.MkdirTemp(tmpDir, "lv")
+		d, err := leveldb.New(dir, 16, 16, "", false, logger, loc)
+		if err != nil {
+			panic(err)
+		}
+		db := rawdb.NewDatabase(d)
+		return db, func() { db.Close(); os.RemoveAll(dir) }
+	case "pebble":
+		dir, _ := os.MkdirTemp(tmpDir, "pb")
+		d, err := pebble.New(dir, 16, 16, "", false, logger, loc)
+		if err != nil {
+			panic(err)
+		}
+		db := rawdb.NewDatabase(d)
+		return db, func() { db.Close(); os.RemoveAll(dir) }
+	default:
+		// memorydb.Database.Location() returns nil, so blocks decoded from it get out-of-zone
+		// addresses; the key-value behaviour under test is unchanged by pinning the location.
+		db := rawdb.NewDatabase(locKV{memorydb.New(logger)})
+		return db, func() { db.Close() }
+	}
+}
+
+type locKV struct{ *memorydb.Database }
+
+func (locKV) Location() common.Location { return loc }
+
+type kv struct{ k, v []byte }
+
+func snapshot(db ethdb.Database) []kv {
+	var out []kv
+	it := db.NewIterator(nil, nil)
+	for it.Next() {
+		out = append(out, kv{common.CopyBytes(it.Key()), common.CopyBytes(it.Value())})
+	}
+	it.Release()
+	return out
+}
+
+func restore(db ethdb.Database, snap []kv) {
+	b := db.NewBatch()
+	for _, e := range snap {
+		b.Put(e.k, e.v)
+		if b.ValueSize() > 1<<20 {
+			b.Write()
+			b.Reset()
+		}
+	}
+	b.Write()
+}
+
+// ---------------------------------------------------------------- node
+
+type node struct {
+	z      *core.VerifZone
+	db     ethdb.Database
+	myQi   []*common.Hash
+	closed bool
+}
+
+func openNode(db ethdb.Database) *node {
+	t := time.Now()
+	defer func() { tOpen += time.Since(t) }()
+	z, err := core.VerifNewZone(db, core.VerifZoneOptions{Location: loc, QuaiCoinbase: id.quaiCoinbase, QiCoinbase: id.qiCoinbase, GenesisTime: 1000}, logger)
 	if err != nil {
-		fmt.Println("newzone:", err)
+		panic("VerifNewZone: " + err.Error())
+	}
+	return &node{z: z, db: db}
+}
+
+var tClose, tOpen, tGen, tSwitch, tScan time.Duration
+
+func (n *node) close() {
+	if !n.closed {
+		n.closed = true
+		t := time.Now()
+		n.z.Close()
+		tClose += time.Since(t)
+	}
+}
+
+func (n *node) headNum() uint64 { return n.z.Hc.CurrentHeader().NumberU64(common.ZONE_CTX) }
+
+// ---------------------------------------------------------------- images
+
+type image struct {
+	Ut, Cl  []kv
+	Canon   []common.Hash // index = number; zero hash = absent
+	Head    common.Hash
+	MemHead common.Hash
+}
+
+func scanPrefix(db ethdb.Database, prefix string, klen int) []kv {
+	var out []kv
+	it := db.NewIterator([]byte(prefix), nil)
+	for it.Next() {
+		if len(it.Key()) == klen {
+			out = append(out, kv{common.CopyBytes(it.Key()), common.CopyBytes(it.Value())})
+		}
+	}
+	it.Release()
+	return out
+}
+
+func scan(n *node, maxNum uint64) *image {
+	im := &image{Ut: scanPrefix(n.db, "ut", rawdb.UtxoKeyLength), Cl: scanPrefix(n.db, "cl", rawdb.CoinbaseLockupKeyLength)}
+	for i := uint64(0); i <= maxNum; i++ {
+		im.Canon = append(im.Canon, rawdb.ReadCanonicalHash(n.db, i))
+	}
+	im.Head = rawdb.ReadHeadBlockHash(n.db)
+	im.MemHead = n.z.Hc.CurrentHeader().Hash()
+	return im
+}
+
+func kvsEqual(a, b []kv) bool {
+	if len(a) != len(b) {
+		return false
+	}
+	for i := range a {
+		if !bytes.Equal(a[i].k, b[i].k) || !bytes.Equal(a[i].v, b[i].v) {
+			return false
+		}
+	}
+	return true
+}
+
+func kvsDiff(a, b []kv) string {
+	ma, mb := map[string][]byte{}, map[string][]byte{}
+	for _, e := range a {
+		ma[string(e.k)] = e.v
+	}
+	for _, e := range b {
+		mb[string(e.k)] = e.v
+	}
+	extra, missing, changed := 0, 0, 0
+	first := ""
+	for k, v := range ma {
+		w, ok := mb[k]
+		if !ok {
+			extra++
+			if first == "" {
+				first = fmt.Sprintf("extra %x", k)
+			}
+		} else if !bytes.Equal(v, w) {
+			changed++
+			first = fmt.Sprintf("changed %x: have %x want %x", k, v, w)
+		}
+	}
+	for k := range mb {
+		if _, ok := ma[k]; !ok {
+			missing++
+			if first == "" {
+				first = fmt.Sprintf("missing %x", k)
+			}
+		}
+	}
+	return fmt.Sprintf("%d extra, %d missing, %d changed (%s)", extra, missing, changed, first)
+}
+
+// canonEqual compares the number->hash maps (the shorter one is padded with "absent")
+func canonEqual(a, b []common.Hash) bool {
+	n := len(a)
+	if len(b) > n {
+		n = len(b)
+	}
+	for i := 0; i < n; i++ {
+		var x, y common.Hash
+		if i < len(a) {
+			x = a[i]
+		}
+		if i < len(b) {
+			y = b[i]
+		}
+		if x != y {
+			return false
+		}
+	}
+	return true
+}
+
+func imgLookup(l []kv, k []byte) ([]byte, bool) {
+	i := sort.Search(len(l), func(i int) bool { return bytes.Compare(l[i].k, k) >= 0 })
+	if i < len(l) && bytes.Equal(l[i].k, k) {
+		return l[i].v, true
+	}
+	return nil, false
+}
+
+// ---------------------------------------------------------------- undo records and forward writes
+
+type lkWrite struct {
+	k, v []byte
+	del  bool
+}
+
+type effect struct {
+	num          uint64
+	hash, parent common.Hash
+	created      []kv     // forward: key(36) -> value
+	createdKeys  [][]byte // undo, 37 bytes
+	spent        []kv     // undo (value = what CreateUTXO writes on rollback)
+	trimmed      []kv
+	lkWrites     []lkWrite
+	lkCreated    [][]byte
+	lkDeleted    []kv
+	incomplete   bool
+}
+
+var scratch = rawdb.NewMemoryDatabase(log.Global)
+
+// bytes rawdb.CreateUTXO writes for a spent/trimmed entry when the rollback re-creates it
+func encSpent(e *types.SpentUtxoEntry) kv {
+	k := rawdb.UtxoKey(e.TxHash, e.Index)
+	if err := rawdb.CreateUTXO(scratch, e.TxHash, e.Index, e.UtxoEntry); err != nil {
+		panic(err)
+	}
+	v, _ := scratch.Get(k)
+	scratch.Delete(k)
+	return kv{k, v}
+}
+
+func stripDen(k []byte) []byte {
+	if len(k) == rawdb.UtxoKeyWithDenominationLength {
+		return k[:rawdb.UtxoKeyLength]
+	}
+	return k
+}
+
+// readUndo reads the five undo records of a block from db.
+func readUndo(db ethdb.Database, wo *types.WorkObject) (*effect, error) {
+	h := wo.Hash()
+	e := &effect{num: wo.NumberU64(common.ZONE_CTX), hash: h, parent: wo.ParentHash(common.ZONE_CTX)}
+	sp, err := rawdb.ReadSpentUTXOs(db, h)
+	if err != nil {
+		return nil, err
+	}
+	for _, s := range sp {
+		e.spent = append(e.spent, encSpent(s))
+	}
+	tr, err := rawdb.ReadTrimmedUTXOs(db, h)
+	if err != nil {
+		return nil, err
+	}
+	for _, s := range tr {
+		e.trimmed = append(e.trimmed, encSpent(s))
+	}
+	sort.Slice(e.trimmed, func(i, j int) bool { return bytes.Compare(e.trimmed[i].k, e.trimmed[j].k) < 0 }) // goroutine order in Finalize
+	ck, err := rawdb.ReadCreatedUTXOKeys(db, h)
+	if err != nil {
+		return nil, err
+	}
+	for _, k := range ck {
+		e.createdKeys = append(e.createdKeys, common.CopyBytes(k))
+	}
+	lc, err := rawdb.ReadCreatedCoinbaseLockupKeys(db, h)
+	if err != nil {
+		return nil, err
+	}
+	for _, k := range lc {
+		e.lkCreated = append(e.lkCreated, common.CopyBytes(k))
+	}
+	ld, err := rawdb.ReadDeletedCoinbaseLockups(db, h)
+	if err != nil {
+		return nil, err
+	}
+	for _, d := range ld {
+		e.lkDeleted = append(e.lkDeleted, kv{common.CopyBytes(d.Key), common.CopyBytes(d.Value)})
+	}
+	return e, nil
+}
+
+// withForward completes an effect with the forward writes observed on db right after the block
+// was processed there (the builder node).
+func withForward(db ethdb.Database, e *effect) {
+	seen := map[string]bool{}
+	for _, ck := range e.createdKeys {
+		k := stripDen(ck)
+		if seen[string(k)] {
+			continue
+		}
+		seen[string(k)] = true
+		v, _ := db.Get(k)
+		if len(v) == 0 {
+			for _, s := range append(append([]kv{}, e.spent...), e.trimmed...) {
+				if bytes.Equal(s.k, k) {
+					v = s.v
+				}
+			}
+		}
+		if len(v) == 0 {
+			e.incomplete = true
+			continue
+		}
+		e.created = append(e.created, kv{common.CopyBytes(k), common.CopyBytes(v)})
+	}
+	seen = map[string]bool{}
+	touch := func(k []byte) {
+		if seen[string(k)] {
+			return
+		}
+		seen[string(k)] = true
+		v, _ := db.Get(k)
+		if len(v) == 0 {
+			e.lkWrites = append(e.lkWrites, lkWrite{k: k, del: true})
+		} else {
+			e.lkWrites = append(e.lkWrites, lkWrite{k: k, v: common.CopyBytes(v)})
+		}
+	}
+	for _, k := range e.lkCreated {
+		touch(k)
+	}
+	for _, d := range e.lkDeleted {
+		touch(d.k)
+	}
+}
+
+// merge: forward part of the builder's effect + undo part read from the test node
+func merge(fwd, undo *effect) *effect {
+	m := *undo
+	m.created = fwd.created
+	m.lkWrites = fwd.lkWrites
+	m.incomplete = fwd.incomplete
+	return &m
+}
+
+func keyIn(k []byte, l [][]byte) bool {
+	for _, x := range l {
+		if bytes.Equal(x, k) {
+			return true
+		}
+	}
+	return false
+}
+
+// wfEffect: the undo log of e is well formed w.r.t. the image before the block (independent Go
+// version of Model/C10.v wf_effectb). badLockup reports the F6 shape (a restore record of a key
+// not created in the block differs from the record that was there).
+func wfEffect(pre *image, e *effect) (ok bool, badLockup bool, why string) {
+	ok = true
+	var ck [][]byte
+	for _, k := range e.createdKeys {
+		ck = append(ck, stripDen(k))
+	}
+	for _, k := range ck {
+		if _, present := imgLookup(pre.Ut, k); present {
+			ok, why = false, fmt.Sprintf("created key %x already present", k)
+		}
+	}
+	for _, s := range append(append([]kv{}, e.spent...), e.trimmed...) {
+		if keyIn(s.k, ck) {
+			continue
+		}
+		if v, present := imgLookup(pre.Ut, s.k); !present || !bytes.Equal(v, s.v) {
+			ok, why = false, fmt.Sprintf("spent/trimmed record %x does not carry the previous value", s.k)
+		}
+	}
+	for _, c := range e.created {
+		if !keyIn(c.k, ck) {
+			ok, why = false, fmt.Sprintf("created output %x has no created-key record", c.k)
+		}
+	}
+	for _, k := range e.lkCreated {
+		if _, present := imgLookup(pre.Cl, k); present {
+			ok, why = false, fmt.Sprintf("created lockup %x already present", k)
+		}
+	}
+	first := map[string][]byte{}
+	for _, d := range e.lkDeleted {
+		if _, s := first[string(d.k)]; !s {
+			first[string(d.k)] = d.v
+		}
+	}
+	for _, d := range e.lkDeleted {
+		if keyIn(d.k, e.lkCreated) {
+			continue
+		}
+		if v, present := imgLookup(pre.Cl, d.k); !present || !bytes.Equal(v, first[string(d.k)]) {
+			ok, badLockup = false, true
+			why = fmt.Sprintf("lockup restore record %x = %x but the record was %x", d.k, first[string(d.k)], v)
+		}
+	}
+	var dk [][]byte
+	for _, d := range e.lkDeleted {
+		dk = append(dk, d.k)
+	}
+	for _, w := range e.lkWrites {
+		if !keyIn(w.k, e.lkCreated) && !keyIn(w.k, dk) {
+			ok, why = false, fmt.Sprintf("lockup write %x has no undo record", w.k)
+		}
+	}
+	// chain
+	if e.num == 0 || pre.Head != e.parent || int(e.num-1) >= len(pre.Canon) || pre.Canon[e.num-1] != e.parent {
+		ok, why = false, "chain: parent is not the head / not canonical"
+	}
+	if int(e.num) < len(pre.Canon) && pre.Canon[e.num] != (common.Hash{}) {
+		ok, why = false, "chain: number already canonical"
+	}
+	return
+}
+
+// ---------------------------------------------------------------- Coq printing
+
+// cb prints a byte string compactly as (B[W 7 0x..;..]) (Model/C10.v: 7-byte chunks as primitive ints)
+func cb(b []byte) string {
+	if len(b) == 0 {
+		return "[]"
+	}
+	var sb strings.Builder
+	sb.WriteString("(B[")
+	for i := 0; i < len(b); i += 7 {
+		j := i + 7
+		if j > len(b) {
+			j = len(b)
+		}
+		if i > 0 {
+			sb.WriteByte(';')
+		}
+		fmt.Fprintf(&sb, "W %d 0x%x", j-i, b[i:j])
+	}
+	sb.WriteString("])")
+	return sb.String()
+}
+
+func coqKvs(l []kv) string {
+	it := make([]string, len(l))
+	for i, e := range l {
+		it[i] = "(" + cb(e.k) + "," + cb(e.v) + ")"
+	}
+	return "[" + strings.Join(it, ";") + "]"
+}
+
+func coqKeys(l [][]byte) string {
+	it := make([]string, len(l))
+	for i, k := range l {
+		it[i] = cb(k)
+	}
+	return "[" + strings.Join(it, ";") + "]"
+}
+
+func coqImage(im *image) string {
+	var c []string
+	for i, h := range im.Canon {
+		if h != (common.Hash{}) {
+			c = append(c, fmt.Sprintf("([%d],%s)", i, cb(h.Bytes())))
+		}
+	}
+	return "(mkDb " + coqKvs(im.Ut) + " " + coqKvs(im.Cl) + " [" + strings.Join(c, ";") + "] " + cb(im.Head.Bytes()) + ")"
+}
+
+func coqEffect(e *effect) string {
+	w := make([]string, len(e.lkWrites))
+	for i, x := range e.lkWrites {
+		if x.del {
+			w[i] = "(" + cb(x.k) + ",None)"
+		} else {
+			w[i] = "(" + cb(x.k) + ",Some " + cb(x.v) + ")"
+		}
+	}
+	return fmt.Sprintf("(mkEff %d %s %s %s %s %s %s [%s] %s %s)", e.num, cb(e.hash.Bytes()), cb(e.parent.Bytes()),
+		coqKvs(e.created), coqKeys(e.createdKeys), coqKvs(e.spent), coqKvs(e.trimmed), strings.Join(w, ";"), coqKeys(e.lkCreated), coqKvs(e.lkDeleted))
+}
+
+func coqEffects(l []*effect) string {
+	it := make([]string, len(l))
+	for i, e := range l {
+		it[i] = coqEffect(e)
+	}
+	return "[" + strings.Join(it, ";\n   ") + "]"
+}
+
+// ---------------------------------------------------------------- scenario data
+
+type blockInfo struct {
+	wo         *types.WorkObject
+	hash       common.Hash
+	parent     common.Hash
+	num        uint64
+	inbound    types.Transactions // stored under this block: what its children receive
+	inboundSet bool
+	pendingOut types.Transactions // outbound ETXs up to this block not yet delivered
+	eff        *effect            // builder: undo + forward
+	img        *image             // oracle image after this block
+	tags       []string
+	branch     string
+}
+
+type scenario struct {
+	ID       int
+	Seed     uint64
+	Backend  string
+	Kind     string // random | f6 | deep | samebranch
+	blocks   map[common.Hash]*blockInfo
+	maxNum   uint64
+	allowDelegateChange bool
+	noLockups           bool
+}
+
+type caseJSON struct {
+	Id       uint64 `json:"id"`
+	Kind     string `json:"kind"` // reorg | addlock
+	Scenario int    `json:"scenario"`
+	ScnSeed  uint64 `json:"scn_seed"`
+	ScnKind  string `json:"scn_kind"`
+	DelegChg bool   `json:"delegate_change"`
+	NoLockup bool   `json:"no_lockups"`
+	Backend  string `json:"backend"`
+	Switch   int    `json:"switch"`
+	From     string `json:"from,omitempty"`
+	To       string `json:"to,omitempty"`
+	Rolled   int    `json:"rolled_back"`
+	Applied  int    `json:"re_appended"`
+	AddLock  *addLockCase `json:"addlock,omitempty"`
+}
+
+// ---------------------------------------------------------------- content generators
+
+var den = func(i uint8) *big.Int { return types.Denominations[i] }
+
+func (s *scenario) foreignEtxs(r *hlib.Rng, tags *[]string) types.Transactions {
+	var out types.Transactions
+	n := r.Pick(2, 4, 3, 2)
+	for j := 0; j < n; j++ {
+		h := common.BytesToHash(r.Bytes(32))
+		switch r.Pick(3, 4, 2, 5, 1) {
+		case 0: // Qi coinbase (locked outputs)
+			to := id.qiA[r.Intn(3)]
+			lb := byte(0)
+			if r.Chance(30) {
+				lb = byte(r.Intn(4))
+			}
+			v := new(big.Int).Set(den(uint8(6 + r.Intn(5))))
+			if r.Chance(30) {
+				v.Add(v, den(uint8(r.Intn(6))))
+			}
+			out = append(out, types.NewTx(&types.ExternalTx{OriginatingTxHash: h, ETXIndex: uint16(j), Gas: 21000, To: &to, Value: v, Data: append([]byte{lb}, h.Bytes()...), Sender: to, EtxType: types.CoinbaseType}))
+			*tags = append(*tags, "etx:qi-coinbase")
+		case 1: // regular cross-zone Qi ETX (unlocked output; small denominations are trimmed later)
+			to := id.qiA[r.Intn(3)]
+			d := int64(r.Intn(6))
+			if r.Chance(60) {
+				d = int64(6 + r.Intn(5))
+			}
+			out = append(out, types.NewTx(&types.ExternalTx{OriginatingTxHash: h, ETXIndex: uint16(j), Gas: 21000, To: &to, Value: big.NewInt(d), Sender: id.farQi, EtxType: types.DefaultType}))
+			*tags = append(*tags, "etx:qi-transfer")
+		case 2: // Quai -> Qi conversion (outputs locked for ConversionLockPeriod)
+			to := id.qiA[r.Intn(3)]
+			v := new(big.Int).Set(den(uint8(7 + r.Intn(4))))
+			out = append(out, types.NewTx(&types.ExternalTx{OriginatingTxHash: h, ETXIndex: uint16(j), Gas: 200000, To: &to, Value: v, Sender: id.convSender, EtxType: types.ConversionType}))
+			*tags = append(*tags, "etx:conversion")
+		case 3: // coinbase paid into the lockup contract (AddNewLock)
+			if s.noLockups {
+				continue
+			}
+			var to common.Address
+			var v *big.Int
+			who := r.Intn(3)
+			if who == 2 {
+				to, v = id.qiMiner, new(big.Int).Set(den(uint8(6+r.Intn(5))))
+			} else {
+				to, v = id.miners[who], new(big.Int).Mul(big.NewInt(1e15), big.NewInt(int64(1+r.Intn(9))))
+			}
+			lb := byte(r.Intn(2))
+			if r.Chance(20) {
+				lb = byte(r.Intn(4))
+			}
+			data := append([]byte{lb}, id.contract.Bytes()...)
+			// delegate policy: normally a fixed function of the beneficiary (no change ever);
+			// scenarios that allow it pick freely (finding F6)
+			di := who
+			if s.allowDelegateChange {
+				di = r.Intn(4)
+			}
+			if di < 3 {
+				if who != 1 || s.allowDelegateChange { // miner 1 never names a delegate (38-byte records)
+					data = append(data, id.delegates[di].Bytes()...)
+				}
+			}
+			data = append(data, h.Bytes()...)
+			out = append(out, types.NewTx(&types.ExternalTx{OriginatingTxHash: h, ETXIndex: uint16(j), Gas: 21000, To: &to, Value: v, Data: data, Sender: to, EtxType: types.CoinbaseType}))
+			*tags = append(*tags, "etx:lockup-coinbase")
+		case 4: // malformed coinbase layouts: reward lost, no state written
+			to := id.miners[0]
+			data := append([]byte{0}, r.Bytes(7+r.Intn(30))...)
+			if r.Bool() {
+				bogus := mkAddr(r, 0, false) // no code there
+				data = append(append([]byte{1}, bogus.Bytes()...), h.Bytes()...)
+			}
+			out = append(out, types.NewTx(&types.ExternalTx{OriginatingTxHash: h, ETXIndex: uint16(j), Gas: 21000, To: &to, Value: big.NewInt(1e15), Data: data, Sender: to, EtxType: types.CoinbaseType}))
+			*tags = append(*tags, "etx:malformed-coinbase")
+		}
+	}
+	return out
+}
+
+func signQi(qt *types.QiTx, keys []*btcec.PrivateKey, signer types.Signer) (*types.Transaction, error) {
+	d := signer.Hash(types.NewTx(qt))
+	if len(keys) == 1 {
+		sig, err := schnorr.Sign(keys[0], d[:])
+		if err != nil {
+			return nil, err
+		}
+		qt.Signature = sig
+		return types.NewTx(qt), nil
+	}
+	pubs := make([]*btcec.PublicKey, len(keys))
+	for i, k := range keys {
+		pubs[i] = k.PubKey()
+	}
+	sess := make([]*musig2.Session, len(keys))
+	for i, k := range keys {
+		c, err := musig2.NewContext(k, false, musig2.WithKnownSigners(pubs))
+		if err != nil {
+			return nil, err
+		}
+		if sess[i], err = c.NewSession(); err != nil {
+			return nil, err
+		}
+	}
+	for i := range sess {
+		for j := range sess {
+			if i != j {
+				if _, err := sess[i].RegisterPubNonce(sess[j].PublicNonce()); err != nil {
+					return nil, err
+				}
+			}
+		}
+	}
+	for i := range sess {
+		ps, err := sess[i].Sign(d)
+		if err != nil {
+			return nil, err
+		}
+		if i != 0 {
+			if _, err := sess[0].CombineSig(ps); err != nil {
+				return nil, err
+			}
+		}
+	}
+	qt.Signature = sess[0].FinalSig()
+	return types.NewTx(qt), nil
+}
+
+// addQiSpends puts up to count Qi transactions spending our unlocked outputs into the pool.
+func (n *node) addQiSpends(r *hlib.Rng, count int, tags *[]string) {
+	head := n.headNum()
+	type cand struct {
+		op  types.OutPoint
+		u   *types.UtxoEntry
+		key int
+	}
+	var cands []cand
+	for _, e := range scanPrefix(n.db, "ut", rawdb.UtxoKeyLength) {
+		h, idx, err := rawdb.ReverseUtxoKey(e.k)
+		if err != nil {
+			continue
+		}
+		u := rawdb.GetUTXO(n.db, h, idx)
+		if u == nil || u.Denomination < 6 {
+			continue
+		}
+		if u.Lock != nil && u.Lock.Sign() != 0 && u.Lock.Uint64() > head {
+			continue
+		}
+		ki := qiKeyOf(u.Address)
+		if ki < 0 {
+			continue
+		}
+		cands = append(cands, cand{types.OutPoint{TxHash: h, Index: idx}, u, ki})
+	}
+	signer := types.NewSigner(n.z.Config.ChainID, loc)
+	for c := 0; c < count && len(cands) > 0; c++ {
+		i := r.Intn(len(cands))
+		in := []cand{cands[i]}
+		cands = append(cands[:i], cands[i+1:]...)
+		if len(cands) > 0 && r.Chance(25) {
+			j := r.Intn(len(cands))
+			in = append(in, cands[j])
+			cands = append(cands[:j], cands[j+1:]...)
+		}
+		// outputs: the largest input pays d-1 (and sometimes d-2) to our other addresses, the rest is fee
+		sort.Slice(in, func(a, b int) bool { return in[a].u.Denomination > in[b].u.Denomination })
+		d := in[0].u.Denomination
+		o1 := r.Intn(3)
+		outs := types.TxOuts{{Denomination: d - 1, Address: id.qiA[o1].Bytes(), Lock: big.NewInt(0)}}
+		if r.Chance(50) {
+			outs = append(outs, types.TxOut{Denomination: d - 2, Address: id.qiA[(o1+1)%3].Bytes(), Lock: big.NewInt(0)})
+		}
+		if len(in) == 2 { // second input (smaller or equal) becomes a small change output: trimmable
+			outs = append(outs, types.TxOut{Denomination: uint8(r.Intn(5)), Address: id.qiA[(o1+2)%3].Bytes(), Lock: big.NewInt(0)})
+		}
+		qt := &types.QiTx{ChainID: n.z.Config.ChainID, TxOut: outs}
+		var keys []*btcec.PrivateKey
+		for _, x := range in {
+			qt.TxIn = append(qt.TxIn, types.TxIn{PreviousOutPoint: x.op, PubKey: id.qiK[x.key].PubKey().SerializeUncompressed()})
+			keys = append(keys, id.qiK[x.key])
+		}
+		tx, err := signQi(qt, keys, signer)
+		if err != nil {
+			continue
+		}
+		if err := n.z.Pool.AddLocal(tx); err != nil {
+			*tags = append(*tags, "qi-spend-rejected-by-pool")
+			continue
+		}
+		h := tx.Hash()
+		n.myQi = append(n.myQi, &h)
+	}
+}
+
+// addClaim puts one claim of an unlocked lockup tranche of a previous epoch into the pool.
+func (n *node) addClaim(r *hlib.Rng, tags *[]string) bool {
+	head := n.z.Hc.CurrentHeader()
+	next := head.NumberU64(common.ZONE_CTX) + 1
+	latestEpoch := uint32(next/params.CoinbaseEpochBlocks) + 1
+	var cands [][]byte
+	for _, e := range scanPrefix(n.db, "cl", rawdb.CoinbaseLockupKeyLength) {
+		owner, _, _, epoch, err := rawdb.ReverseCoinbaseLockupKey(e.k, loc)
+		if err != nil || !owner.Equal(id.contract) || epoch >= latestEpoch || len(e.v) < 38 {
+			continue
+		}
+		if uint64(binary.BigEndian.Uint32(e.v[32:36])) > next {
+			continue
+		}
+		cands = append(cands, e.k)
+	}
+	if len(cands) == 0 {
+		return false
+	}
+	k := cands[r.Intn(len(cands))]
+	_, miner, lb, epoch, _ := rawdb.ReverseCoinbaseLockupKey(k, loc)
+	to := miner
+	if miner.IsInQiLedgerScope() {
+		to = id.qiA[r.Intn(3)]
+	}
+	data := append([]byte{}, miner.Bytes()...)
+	data = append(data, to.Bytes()...)
+	data = append(data, lb)
+	data = binary.BigEndian.AppendUint32(data, epoch)
+	data = binary.BigEndian.AppendUint64(data, 50000)
+	hb := n.z.Hc.GetBlockByHash(head.Hash())
+	if hb == nil {
+		return false
+	}
+	st, err := n.z.StateAt(hb)
+	if err != nil {
+		return false
+	}
+	ia, _ := id.quaiA.InternalAddress()
+	nonce := st.GetNonce(ia)
+	gp := new(big.Int).Mul(hb.BaseFee(), big.NewInt(3))
+	tx, err := types.SignNewTx(id.quaiK, types.NewSigner(n.z.Config.ChainID, loc), &types.QuaiTx{ChainID: n.z.Config.ChainID, Nonce: nonce, GasPrice: gp, Gas: 400000, To: &id.contract, Value: big.NewInt(0), Data: data, AccessList: types.AccessList{{Address: id.lockupAddr}}})
+	if err != nil {
+		return false
+	}
+	return n.submitQuaiTx(tx, tags, "claim")
+}
+
+// submitQuaiTx: publish the head to the pool (Slice's job), add the tx, wait until it is pending.
+func (n *node) submitQuaiTx(tx *types.Transaction, tags *[]string, what string) bool {
+	n.z.VerifC10NotifyHead()
+	var err error
+	for i := 0; i < 60; i++ {
+		if err = n.z.Pool.AddLocal(tx); err == nil || err == core.ErrAlreadyKnown {
+			break
+		}
+		time.Sleep(5 * time.Millisecond)
+	}
+	if err != nil && err != core.ErrAlreadyKnown {
+		*tags = append(*tags, what+"-rejected-by-pool")
+		return false
+	}
+	for i := 0; i < 200; i++ {
+		p, _ := n.z.Pool.TxPoolPending()
+		for _, txs := range p {
+			for _, t := range txs {
+				if t.Hash() == tx.Hash() {
+					return true
+				}
+			}
+		}
+		time.Sleep(5 * time.Millisecond)
+	}
+	*tags = append(*tags, what+"-never-pending")
+	return false
+}
+
+type blockOpts struct {
+	noContent bool
+	inbound   types.Transactions // forced inbound set for the head (if not yet decided)
+	forceInb  bool
+	spends    int
+	claim     bool
+	miner     int // -1 random
+}
+
+// decideInbound fixes (once) what the children of the current head receive.
+func (s *scenario) decideInbound(n *node, r *hlib.Rng, o *blockOpts) {
+	head := n.z.Hc.CurrentHeader()
+	hi := s.blocks[head.Hash()]
+	if hi == nil || hi.inboundSet {
 		return
 	}
-	var pending types.Transactions
-	for i := 0; i < 20; i++ {
-		z.VerifC10SetMiner(qa, qi, i%2 == 1, uint8(i%4), nil)
-		b, err := z.Assemble(true)
-		if err != nil {
-			fmt.Println("assemble:", i, err)
-			return
-		}
-		fmt.Println("assembled", b.NumberU64(common.ZONE_CTX), "out", len(b.OutboundEtxs()), "txs", len(b.Transactions()), "gaslimit", b.GasLimit(), "gasused", b.GasUsed(), "ptn", b.PrimeTerminusNumber())
-		if err := z.Append(b); err != nil {
-			fmt.Println("append:", i, err)
-			return
-		}
-		for _, e := range b.OutboundEtxs() {
-			fmt.Printf("   out etx type %d to %s qi=%v val %v data %x\n", e.EtxType(), e.To().Hex(), e.To().IsInQiLedgerScope(), e.Value(), e.Data())
-		}
-		pending = append(pending, b.OutboundEtxs()...)
-		if i%3 == 2 {
-			// a foreign coinbase to a Qi address
-			h := common.BytesToHash(r.Bytes(32))
-			pending = append(pending, types.NewTx(&types.ExternalTx{OriginatingTxHash: h, ETXIndex: 0, Gas: 21000, To: &qi2, Value: big.NewInt(1234567), Data: append([]byte{0}, h.Bytes()...), Sender: qi2, EtxType: types.CoinbaseType}))
-			for j := 0; j < 3; j++ {
-				h2 := common.BytesToHash(r.Bytes(32))
-				den := int64(8 + j)
-				if j == 2 {
-					den = 2
-				}
-				pending = append(pending, types.NewTx(&types.ExternalTx{OriginatingTxHash: h2, ETXIndex: uint16(j), Gas: 21000, To: &qi2, Value: big.NewInt(den), Sender: far, EtxType: types.DefaultType}))
-				if j < 2 {
-					spendable = append(spendable, types.OutPoint{TxHash: h2, Index: uint16(j)})
-				}
-			}
-			rawdb.WriteInboundEtxs(db, b.Hash(), pending)
-			pending = nil
-		}
-		if len(spendable) > 0 {
-			op := spendable[0]
-			if u := rawdb.GetUTXO(db, op.TxHash, op.Index); u != nil {
-				spendable = spendable[1:]
-				outs := types.TxOuts{}
-				// pay denomination-1 to qi3, rest is fee
-				outs = append(outs, types.TxOut{Denomination: u.Denomination - 1, Address: qi3.Bytes(), Lock: big.NewInt(0)})
-				qt := &types.QiTx{ChainID: z.Config.ChainID, TxIn: types.TxIns{{PreviousOutPoint: op, PubKey: k2.PubKey().SerializeUncompressed()}}, TxOut: outs}
-				signer := types.NewSigner(z.Config.ChainID, loc)
-				d := signer.Hash(types.NewTx(qt))
-				sig, err := schnorr.Sign(k2, d[:])
-				if err != nil {
-					panic(err)
-				}
-				qt.Signature = sig
-				tx := types.NewTx(qt)
-				fmt.Println("  addlocal:", z.Pool.AddLocal(tx), "den", u.Denomination)
-			}
-		}
-		sp, _ := rawdb.ReadSpentUTXOs(db, b.Hash())
-		tr, _ := rawdb.ReadTrimmedUTXOs(db, b.Hash())
-		ck, _ := rawdb.ReadCreatedUTXOKeys(db, b.Hash())
-		fmt.Println(" utxo set size", rawdb.ReadUTXOSetSize(db, b.Hash()), "spent", len(sp), "trimmed", len(tr), "created", len(ck))
+	hi.inboundSet = true
+	if o != nil && o.forceInb {
+		hi.inbound = append(append(types.Transactions{}, hi.pendingOut...), o.inbound...)
+	} else if (o == nil || !o.noContent) && r.Chance(80) {
+		hi.inbound = append(append(types.Transactions{}, hi.pendingOut...), s.foreignEtxs(r, &hi.tags)...)
 	}
+	if len(hi.inbound) > 0 {
+		rawdb.WriteInboundEtxs(n.db, head.Hash(), hi.inbound)
+	}
+}
+
+// genChild assembles (real worker) and appends (real SetCurrentHeader) one block on top of the
+// node's head and records its undo records, forward writes and the image after it.
+func (s *scenario) genChild(n *node, r *hlib.Rng, branch string, o *blockOpts) (*blockInfo, error) {
+	head := n.z.Hc.CurrentHeader()
+	hi := s.blocks[head.Hash()]
+	s.decideInbound(n, r, o)
+	var tags []string
+	// miner identity
+	m := o.miner
+	if m < 0 {
+		m = []int{0, 1, 3, 4, 5}[r.Intn(5)] // 2 is reserved for the first block of branch C
+	}
+	var lc *common.Address
+	if m >= 4 && !s.noLockups {
+		lc = &id.contract
+	}
+	n.z.VerifC10SetMiner(id.quaiCoinbase, id.qiCoinbase, m%2 == 1, uint8(m%4), lc)
+	tags = append(tags, fmt.Sprintf("miner:%d", m))
+	if !o.noContent {
+		if o.spends > 0 {
+			n.addQiSpends(r, o.spends, &tags)
+		}
+		if o.claim {
+			if n.addClaim(r, &tags) {
+				tags = append(tags, "claim-submitted")
+			}
+		}
+	}
+	b, err := n.z.Assemble(true)
+	if len(n.myQi) > 0 {
+		n.z.Pool.RemoveQiTxs(n.myQi)
+		n.myQi = nil
+	}
+	if err != nil {
+		return nil, fmt.Errorf("assemble: %w", err)
+	}
+	if err := n.z.Append(b); err != nil {
+		return nil, fmt.Errorf("append: %w", err)
+	}
+	bi := &blockInfo{wo: b, hash: b.Hash(), parent: head.Hash(), num: b.NumberU64(common.ZONE_CTX), branch: branch}
+	if _, dup := s.blocks[bi.hash]; dup {
+		return nil, fmt.Errorf("duplicate block")
+	}
+	if hi != nil && len(hi.inbound) == 0 {
+		bi.pendingOut = append(bi.pendingOut, hi.pendingOut...)
+	}
+	bi.pendingOut = append(bi.pendingOut, b.OutboundEtxs()...)
+	e, err := readUndo(n.db, b)
+	if err != nil {
+		return nil, err
+	}
+	withForward(n.db, e)
+	bi.eff = e
+	if bi.num > s.maxNum {
+		s.maxNum = bi.num
+	}
+	bi.img = scan(n, bi.num+1)
+	nq, ne := 0, 0
+	for _, tx := range b.Transactions() {
+		switch tx.Type() {
+		case types.QiTxType:
+			nq++
+		case types.QuaiTxType:
+			ne++
+		}
+	}
+	if nq > 0 {
+		tags = append(tags, "qi-tx-included")
+	}
+	if ne > 0 {
+		tags = append(tags, "quai-tx-included")
+	}
+	if len(e.spent) > 0 {
+		tags = append(tags, "undo:spent")
+	}
+	if len(e.trimmed) > 0 {
+		tags = append(tags, "undo:trimmed")
+	}
+	if len(e.createdKeys) > 0 {
+		tags = append(tags, "undo:created")
+	}
+	if len(e.lkCreated) > 0 {
+		tags = append(tags, "undo:lockup-created")
+	}
+	if len(e.lkDeleted) > 0 {
+		tags = append(tags, "undo:lockup-deleted")
+	}
+	for _, w := range e.lkWrites {
+		if w.del {
+			tags = append(tags, "lockup-claimed")
+		}
+	}
+	for _, sp := range e.spent {
+		for _, ck := range e.createdKeys {
+			if bytes.Equal(stripDen(ck), sp.k) {
+				tags = append(tags, "created-and-spent-in-block")
+			}
+		}
+	}
+	bi.tags = append(bi.tags, tags...)
+	s.blocks[bi.hash] = bi
+	return bi, nil
+}
+
+// ---------------------------------------------------------------- the scenario
+
+type runner struct {
+	rep    *hlib.Report
+	cw     *hlib.CaseWriter
+	nextID uint64
+	tier   string
+}
+
+func (s *scenario) pathFrom(anc, tip common.Hash) []*blockInfo {
+	var p []*blockInfo
+	for h := tip; h != anc; {
+		bi := s.blocks[h]
+		if bi == nil {
+			return nil
+		}
+		p = append([]*blockInfo{bi}, p...)
+		h = bi.parent
+	}
+	return p
+}
+
+func (s *scenario) commonAncestor(a, b common.Hash) common.Hash {
+	seen := map[common.Hash]bool{}
+	for h := a; ; {
+		seen[h] = true
+		bi := s.blocks[h]
+		if bi == nil || bi.wo == nil {
+			break
+		}
+		h = bi.parent
+	}
+	for h := b; ; {
+		if seen[h] {
+			return h
+		}
+		bi := s.blocks[h]
+		if bi == nil {
+			return common.Hash{}
+		}
+		h = bi.parent
+	}
+}
+
+func short(h common.Hash) string { return h.Hex()[2:10] }
+
+func (rn *runner) runScenario(s *scenario) {
+	defer func() {
+		if e := recover(); e != nil {
+			rn.rep.Fail("harness-or-node-panic", fmt.Sprintf("scenario %d (%s, %s): panic: %v", s.ID, s.Kind, s.Backend, e),
+				caseJSON{Id: rn.nextID, Kind: "reorg", Scenario: s.ID, ScnSeed: s.Seed, ScnKind: s.Kind, Backend: s.Backend, DelegChg: s.allowDelegateChange, NoLockup: s.noLockups})
+			rn.nextID++
+		}
+	}()
+	r := hlib.NewRng(s.Seed)
+	s.blocks = map[common.Hash]*blockInfo{}
+	fail := func(what string) { rn.rep.Note(fmt.Sprintf("scenario %d (%s): %s", s.ID, s.Kind, what)); rn.rep.Count("scenario-aborted:" + strings.SplitN(what, ":", 2)[0]) }
+
+	// ---- base chain on its own node
+	db0, close0 := newBackend("memorydb")
+	n0 := openNode(db0)
+	gen := n0.z.Genesis
+	s.blocks[gen.Hash()] = &blockInfo{hash: gen.Hash(), inboundSet: true, img: scan(n0, 1), branch: "G"}
+	step := func(n *node, branch string, o *blockOpts) *blockInfo {
+		t := time.Now()
+		defer func() { tGen += time.Since(t) }()
+		bi, err := s.genChild(n, r, branch, o)
+		if err != nil {
+			panic(fmt.Sprintf("building %s on scenario %d: %v", branch, s.ID, err))
+		}
+		return bi
+	}
+	// 1: empty; its children receive the funding of the deployer
+	step(n0, "P", &blockOpts{noContent: true, miner: 0})
+	fh := common.BytesToHash(r.Bytes(32))
+	fund := types.NewTx(&types.ExternalTx{OriginatingTxHash: fh, Gas: 200000, To: &id.quaiA, Value: new(big.Int).Mul(big.NewInt(1e18), big.NewInt(1e7)), Sender: id.farQuai, EtxType: types.DefaultType})
+	step(n0, "P", &blockOpts{noContent: true, miner: 0, forceInb: true, inbound: types.Transactions{fund}})
+	// 3: deploy the forwarder contract
+	if !s.noLockups {
+		hb := n0.z.Hc.GetBlockByHash(n0.z.Hc.CurrentHeader().Hash())
+		gp := new(big.Int).Mul(hb.BaseFee(), big.NewInt(3))
+		tx, err := types.SignNewTx(id.quaiK, types.NewSigner(n0.z.Config.ChainID, loc), &types.QuaiTx{ChainID: n0.z.Config.ChainID, Nonce: 0, GasPrice: gp, Gas: 600000, To: nil, Value: big.NewInt(0), Data: id.deployCode, AccessList: types.AccessList{{Address: id.contract}}})
+		if err != nil {
+			panic(err)
+		}
+		var tg []string
+		if !n0.submitQuaiTx(tx, &tg, "deploy") {
+			fail("deploy: " + strings.Join(tg, ","))
+			n0.close()
+			close0()
+			return
+		}
+	}
+	step(n0, "P", &blockOpts{noContent: true, miner: 0})
+	if !s.noLockups {
+		hb := n0.z.Hc.GetBlockByHash(n0.z.Hc.CurrentHeader().Hash())
+		st, err := n0.z.StateAt(hb)
+		ic, _ := id.contract.InternalAddress()
+		if err != nil || len(st.GetCode(ic)) == 0 {
+			fail("deploy: no code at contract address")
+			n0.close()
+			close0()
+			return
+		}
+	}
+	nBase := 3 + r.Intn(4)
+	if s.Kind == "deep" {
+		nBase = 6
+	}
+	for i := 0; i < nBase; i++ {
+		step(n0, "P", s.randomOpts(r))
+	}
+	if s.Kind == "f6" {
+		s.f6Base(n0, r, step)
+	}
+	fork := s.blocks[n0.z.Hc.CurrentHeader().Hash()]
+	s.decideInbound(n0, r, s.forkInbound(r))
+	snapF := snapshot(db0)
+	n0.close()
+	close0()
+
+	// ---- branches, each on its own node
+	type branchPlan struct {
+		name  string
+		depth int
+		from  string // "F" or "A"
+		at    int    // fork after A[at-1] (1..len(A)-1)
+	}
+	plans := []branchPlan{{"A", 1 + r.Intn(5), "F", 0}, {"B", 1 + r.Intn(5), "F", 0}}
+	switch s.Kind {
+	case "deep":
+		plans[0].depth, plans[1].depth = 5, 5
+	case "f6":
+		plans[0].depth, plans[1].depth = 2, 2
+	}
+	if s.Kind == "random" && r.Chance(40) && plans[0].depth >= 2 {
+		plans = append(plans, branchPlan{"C", 1 + r.Intn(3), "A", 1 + r.Intn(plans[0].depth-1)})
+	}
+	branches := map[string][]*blockInfo{}
+	var snapAk []kv
+	for _, bp := range plans {
+		dbb, closeb := newBackend("memorydb")
+		if bp.from == "F" {
+			restore(dbb, snapF)
+		} else {
+			restore(dbb, snapAk)
+		}
+		nb := openNode(dbb)
+		cAt := 0
+		for _, q := range plans {
+			if q.from == "A" {
+				cAt = q.at
+			}
+		}
+		for i := 0; i < bp.depth; i++ {
+			var o *blockOpts
+			switch {
+			case s.Kind == "f6":
+				o = s.f6Opts(bp.name, i, r)
+			default:
+				o = s.randomOpts(r)
+			}
+			if i == 0 { // siblings must differ: different miner identity
+				o.miner = map[string]int{"A": 0, "B": 1, "C": 2}[bp.name]
+				if s.Kind == "random" && !s.noLockups && r.Bool() {
+					o.miner += 4 // 4,5 pay into the lockup contract; (6 -> Quai coinbase, lockup byte 2)
+					if o.miner == 6 {
+						o.miner = 2
+					}
+				}
+			}
+			bi := step(nb, bp.name, o)
+			branches[bp.name] = append(branches[bp.name], bi)
+			if bp.name == "A" && i+1 == cAt {
+				s.decideInbound(nb, r, nil)
+				snapAk = snapshot(dbb)
+			}
+		}
+		nb.close()
+		closeb()
+	}
+
+	// ---- the node under test
+	dbT, closeT := newBackend(s.Backend)
+	defer closeT()
+	restore(dbT, snapF)
+	nt := openNode(dbT)
+	defer nt.close()
+	for _, name := range []string{"A", "B", "C"} {
+		for _, bi := range branches[name] {
+			nt.z.Store(bi.wo)
+			if len(bi.inbound) > 0 {
+				rawdb.WriteInboundEtxs(dbT, bi.hash, bi.inbound)
+			}
+		}
+	}
+	if nt.z.Hc.CurrentHeader().Hash() != fork.hash {
+		fail("reopen: head of the restored database is not the fork point")
+		return
+	}
+	// targets
+	tip := func(n string) *blockInfo { b := branches[n]; return b[len(b)-1] }
+	var targets []*blockInfo
+	targets = append(targets, tip("A"), tip("B"), tip("A"), fork)
+	var all []*blockInfo
+	for _, name := range []string{"A", "B", "C"} {
+		all = append(all, branches[name]...)
+	}
+	base := s.pathFrom(gen.Hash(), fork.hash)
+	for i := len(base) - 1; i >= 0 && i >= len(base)-3; i-- {
+		if base[i].num >= 4 { // never below the contract deployment
+			all = append(all, base[i])
+		}
+	}
+	extra := 3 + r.Intn(4)
+	if rn.tier == "thorough" {
+		extra += 4
+	}
+	if len(branches["C"]) > 0 {
+		targets = append(targets, tip("C"), tip("B"), tip("C"))
+	}
+	for i := 0; i < extra; i++ {
+		targets = append(targets, all[r.Intn(len(all))])
+	}
+	targets = append(targets, tip("B"))
+
+	cur := fork
+	visited := map[common.Hash]*image{}
+	f6Seen := false
+	for si, tgt := range targets {
+		if tgt.hash == cur.hash {
+			continue
+		}
+		cid := rn.nextID
+		rn.nextID++
+		cj := caseJSON{Id: cid, Kind: "reorg", Scenario: s.ID, ScnSeed: s.Seed, ScnKind: s.Kind, Backend: s.Backend, DelegChg: s.allowDelegateChange, NoLockup: s.noLockups, Switch: si,
+			From: fmt.Sprintf("%s#%d", cur.branch, cur.num), To: fmt.Sprintf("%s#%d", tgt.branch, tgt.num)}
+		anc := s.commonAncestor(cur.hash, tgt.hash)
+		olds := s.pathFrom(anc, cur.hash)
+		news := s.pathFrom(anc, tgt.hash)
+		cj.Rolled, cj.Applied = len(olds), len(news)
+		ancImg := s.blocks[anc].img
+		maxN := s.maxNum + 1
+		// real undo records the rollback is going to read
+		var oldEff []*effect
+		undoOK := true
+		for _, b := range olds {
+			u, err := readUndo(dbT, b.wo)
+			if err != nil {
+				undoOK = false
+				break
+			}
+			oldEff = append(oldEff, merge(b.eff, u))
+		}
+		if !undoOK {
+			rn.rep.Fail("undo-records-unreadable", "undo records of a canonical block cannot be read", cj)
+			return
+		}
+		pre := scan(nt, maxN)
+		tsw := time.Now()
+		err := nt.z.Hc.SetCurrentHeader(tgt.wo)
+		tSwitch += time.Since(tsw)
+		post := scan(nt, maxN)
+		rn.rep.Evaluations++
+		rn.rep.TracesValidated++
+		var newEff []*effect
+		for _, b := range news {
+			newEff = append(newEff, b.eff)
+		}
+		// well-formedness of the undo logs against the oracle images of the parents
+		wfOld, wfNew := true, true
+		for i, e := range oldEff {
+			ok, bad, _ := wfEffect(s.blocks[olds[i].parent].img, e)
+			wfOld = wfOld && ok && !e.incomplete
+			f6Seen = f6Seen || bad
+		}
+		for i, e := range newEff {
+			ok, _, _ := wfEffect(s.blocks[news[i].parent].img, e)
+			wfNew = wfNew && ok && !e.incomplete
+		}
+
+		// ---------------- monitors
+		failed := false
+		sig := func(component string) string {
+			if f6Seen {
+				return "lockup-undo-record-carries-new-delegate"
+			}
+			return "reorg-not-exact/" + component
+		}
+		report := func(component, what string) {
+			failed = true
+			rn.rep.Fail(sig(component), fmt.Sprintf("%s [scenario %d %s/%s switch %d: %s -> %s, %d rolled back, %d re-appended]", what, s.ID, s.Kind, s.Backend, si, cj.From, cj.To, len(olds), len(news)), cj)
+		}
+		if err != nil {
+			report("error", "SetCurrentHeader returned an error: "+err.Error())
+		}
+		want := tgt.img
+		// M1: exactly the state of a node that only saw the winning branch
+		if !kvsEqual(post.Ut, want.Ut) {
+			report("utxo", "Qi outputs differ from the node that only saw the winning branch: "+kvsDiff(post.Ut, want.Ut))
+		}
+		if !kvsEqual(post.Cl, want.Cl) {
+			report("lockups", "lockup records differ from the node that only saw the winning branch: "+kvsDiff(post.Cl, want.Cl))
+		}
+		if !canonEqual(post.Canon, want.Canon) {
+			report("canonical", "canonical number->hash map differs from the winning branch")
+		}
+		if post.Head != tgt.hash || post.MemHead != tgt.hash {
+			report("head", fmt.Sprintf("head pointers: db %s memory %s want %s", short(post.Head), short(post.MemHead), short(tgt.hash)))
+		}
+		// M2: canonical map = ancestry of the target, nothing above it
+		{
+			h := tgt.hash
+			okc := true
+			for n := int(tgt.num); n >= 0; n-- {
+				if n >= len(post.Canon) || post.Canon[n] != h {
+					okc = false
+				}
+				if bi := s.blocks[h]; bi != nil {
+					h = bi.parent
+				}
+			}
+			for n := int(tgt.num) + 1; n < len(post.Canon); n++ {
+				if post.Canon[n] != (common.Hash{}) {
+					okc = false
+				}
+			}
+			if !okc {
+				report("canonical", "canonical map is not the ancestry of the new head")
+			}
+		}
+		// M3: switching back restores the image seen before at this block
+		if v, ok := visited[tgt.hash]; ok {
+			if !kvsEqual(v.Ut, post.Ut) || !kvsEqual(v.Cl, post.Cl) || !canonEqual(v.Canon, post.Canon) || v.Head != post.Head {
+				report("switch-back", "state differs from the state the node had the previous time at this block")
+			}
+		}
+		// M4: undo-record view — nothing created only on the abandoned part remains, nothing it spent stays missing
+		if !failed {
+			createdNew, deletedNew, lkNew := map[string]bool{}, map[string]bool{}, map[string]bool{}
+			for _, e := range newEff {
+				for _, c := range e.createdKeys {
+					createdNew[string(stripDen(c))] = true
+				}
+				for _, x := range append(append([]kv{}, e.spent...), e.trimmed...) {
+					deletedNew[string(x.k)] = true
+				}
+				for _, w := range e.lkWrites {
+					lkNew[string(w.k)] = true
+				}
+			}
+			createdOld := map[string]bool{}
+			for _, e := range oldEff {
+				for _, c := range e.createdKeys {
+					createdOld[string(stripDen(c))] = true
+				}
+			}
+			for _, e := range oldEff {
+				for _, c := range e.createdKeys {
+					k := stripDen(c)
+					if _, present := imgLookup(post.Ut, k); present && !createdNew[string(k)] {
+						report("abandoned-output", fmt.Sprintf("output %x created only on the abandoned branch is still present", k))
+					}
+				}
+				for _, x := range append(append([]kv{}, e.spent...), e.trimmed...) {
+					if createdOld[string(x.k)] || deletedNew[string(x.k)] || createdNew[string(x.k)] {
+						continue
+					}
+					if v, present := imgLookup(post.Ut, x.k); !present || !bytes.Equal(v, x.v) {
+						report("spent-missing", fmt.Sprintf("output %x spent on the abandoned branch is not restored", x.k))
+					}
+				}
+				for _, k := range e.lkCreated {
+					if _, present := imgLookup(post.Cl, k); present && !lkNew[string(k)] {
+						report("abandoned-lockup", fmt.Sprintf("lockup %x created only on the abandoned branch is still present", k))
+					}
+				}
+			}
+		}
+		// M5: re-execution wrote the same undo records as the node that only saw this branch
+		if !failed {
+			for _, b := range news {
+				u, err := readUndo(dbT, b.wo)
+				if err != nil || !sameUndo(u, b.eff) {
+					report("undo-records", fmt.Sprintf("undo records of re-appended block %s#%d differ from the ones written by the node that only saw this branch", b.branch, b.num))
+					break
+				}
+			}
+		}
+
+		// ---------------- model case
+		term := fmt.Sprintf("C10.CReorg %d\n  %s\n  %s\n  %s\n  %s\n  %s %s %s", cid, coqImage(ancImg), coqEffects(oldEff), coqEffects(newEff),
+			coqImage(pre), coqImage(post), hlib.CoqBool(wfOld), hlib.CoqBool(wfNew))
+		rn.cw.Add(term, cj)
+		rn.rep.Sample(cj)
+
+		// distribution / non-triviality
+		rn.rep.Count(fmt.Sprintf("rolled-back:%d", len(olds)))
+		rn.rep.Count(fmt.Sprintf("re-appended:%d", len(news)))
+		rn.rep.Count("backend:" + s.Backend)
+		feat := map[string]bool{}
+		for _, b := range olds {
+			for _, t := range b.tags {
+				if strings.HasPrefix(t, "undo:") || t == "lockup-claimed" || t == "created-and-spent-in-block" {
+					feat["old-"+t] = true
+				}
+			}
+		}
+		for _, b := range news {
+			for _, t := range b.tags {
+				if strings.HasPrefix(t, "undo:") || t == "lockup-claimed" {
+					feat["new-"+t] = true
+				}
+			}
+		}
+		// an output created on the old branch and spent later on the same branch
+		for i, e := range oldEff {
+			for _, x := range e.spent {
+				for j := 0; j < i; j++ {
+					for _, c := range oldEff[j].createdKeys {
+						if bytes.Equal(stripDen(c), x.k) {
+							feat["old-created-then-spent-on-branch"] = true
+						}
+					}
+				}
+				if _, pre := imgLookup(ancImg.Ut, x.k); pre {
+					feat["old-spends-pre-fork-output"] = true
+				}
+			}
+		}
+		if _, ok := visited[tgt.hash]; ok {
+			feat["switch-back"] = true
+		}
+		if !wfOld {
+			feat["undo-log-not-wf"] = true
+		}
+		fs := hlib.SortedKeys(feat)
+		for _, f := range fs {
+			rn.rep.Count("feature:" + f)
+		}
+		if len(olds) > 0 && len(fs) > 0 {
+			rn.rep.Nontrivial(fmt.Sprintf("%d/%d/%s", len(olds), len(news), strings.Join(fs, ",")))
+		}
+		visited[tgt.hash] = post
+		cur = tgt
+		if failed {
+			rn.rep.Count("scenario-stopped-after-failure")
+			break
+		}
+	}
+	// content distribution of the blocks of this scenario
+	for _, bi := range s.blocks {
+		for _, t := range bi.tags {
+			rn.rep.Count("block:" + t)
+		}
+	}
+}
+
+func sortedKvs(l []kv) []kv {
+	c := append([]kv{}, l...)
+	sort.Slice(c, func(i, j int) bool {
+		if x := bytes.Compare(c[i].k, c[j].k); x != 0 {
+			return x < 0
+		}
+		return bytes.Compare(c[i].v, c[j].v) < 0
+	})
+	return c
+}
+
+func sameUndo(a, b *effect) bool {
+	ks := func(l [][]byte) []kv {
+		var o []kv
+		for _, k := range l {
+			o = append(o, kv{k, nil})
+		}
+		return sortedKvs(o)
+	}
+	return kvsEqual(sortedKvs(a.spent), sortedKvs(b.spent)) && kvsEqual(sortedKvs(a.trimmed), sortedKvs(b.trimmed)) &&
+		kvsEqual(ks(a.createdKeys), ks(b.createdKeys)) && kvsEqual(ks(a.lkCreated), ks(b.lkCreated)) &&
+		kvsEqual(sortedKvs(a.lkDeleted), sortedKvs(b.lkDeleted))
+}
+
+func (s *scenario) randomOpts(r *hlib.Rng) *blockOpts {
+	return &blockOpts{miner: -1, spends: r.Pick(3, 4, 2), claim: !s.noLockups && r.Chance(35)}
+}
+
+func (s *scenario) forkInbound(r *hlib.Rng) *blockOpts {
+	if s.Kind == "f6" {
+		return &blockOpts{forceInb: true, inbound: types.Transactions{lockupCoinbase(r, id.qiMiner, 1, &id.delegates[1], den(8))}}
+	}
+	return nil
+}
+
+func lockupCoinbase(r *hlib.Rng, to common.Address, lb byte, delegate *common.Address, v *big.Int) *types.Transaction {
+	h := common.BytesToHash(r.Bytes(32))
+	data := append([]byte{lb}, id.contract.Bytes()...)
+	if delegate != nil {
+		data = append(data, delegate.Bytes()...)
+	}
+	data = append(data, h.Bytes()...)
+	return types.NewTx(&types.ExternalTx{OriginatingTxHash: h, Gas: 21000, To: &to, Value: new(big.Int).Set(v), Data: data, Sender: to, EtxType: types.CoinbaseType})
+}
+
+// f6 corpus scenario (finding F6): the base creates a tranche WITHOUT delegate in the current
+// epoch; the fork point delivers to both branches a coinbase into the same tranche naming a
+// delegate (first update of the key in the block changes the delegate). Rolling that block
+// back restores a record carrying the delegate.
+func (s *scenario) f6Base(n *node, r *hlib.Rng, step func(*node, string, *blockOpts) *blockInfo) {
+	// make the next three blocks fall into one epoch: pad to an epoch boundary
+	for (n.headNum()+1)%params.CoinbaseEpochBlocks != 0 {
+		step(n, "P", &blockOpts{noContent: true, miner: 0})
+	}
+	// child of the current head creates the tranche (no delegate)
+	step(n, "P", &blockOpts{noContent: true, miner: 0, forceInb: true, inbound: types.Transactions{lockupCoinbase(r, id.qiMiner, 1, nil, den(8))}})
+	step(n, "P", &blockOpts{noContent: true, miner: 0})
+}
+
+func (s *scenario) f6Opts(branch string, i int, r *hlib.Rng) *blockOpts {
+	o := &blockOpts{noContent: true, miner: 0}
+	if i == 1 {
+		// the children of A1/B1 top the same tranche up again (same delegate as A1/B1 named)
+		o.forceInb = true
+		o.inbound = types.Transactions{lockupCoinbase(r, id.qiMiner, 1, &id.delegates[1], den(8))}
+	}
+	return o
+}
+
+// ---------------------------------------------------------------- AddNewLock unit cases
+
+type addLockCase struct {
+	Old      string `json:"old"` // hex, "" = none
+	Value    string `json:"value"`
+	Unlock   uint64 `json:"unlock_height"`
+	Delegate string `json:"delegate"` // hex 20 bytes or ""
+	Seed     uint64 `json:"seed"`
+}
+
+func (rn *runner) addLockCases(r0 *hlib.Rng, n int) {
+	for i := 0; i < n; i++ {
+		cid := rn.nextID
+		rn.nextID++
+		rn.addLockOne(r0.Next(), cid)
+	}
+}
+
+func (rn *runner) addLockOne(seed uint64, cid uint64) {
+	owner := id.contract
+	r := hlib.NewRng(seed)
+	{
+		db := rawdb.NewMemoryDatabase(logger)
+		sdb, err := state.New(types.EmptyRootHash, types.EmptyRootHash, big.NewInt(0), state.NewDatabase(db), state.NewDatabase(db), nil, loc, logger)
+		if err != nil {
+			panic(err)
+		}
+		miner := id.miners[r.Intn(2)]
+		lb := byte(r.Intn(4))
+		epoch := uint32(1 + r.Intn(5))
+		key := rawdb.CoinbaseLockupKey(owner, miner, lb, epoch)
+		var old []byte
+		switch r.Pick(3, 5, 5, 1) {
+		case 0: // no record
+		case 1: // record without delegate
+			old, _ = rawdb.WriteCoinbaseLockupToSlice(big.NewInt(int64(1+r.Intn(1e9))), uint32(4*(1+r.Intn(5))), uint16(1+r.Intn(5)), common.Zero)
+		case 2: // record with delegate
+			old, _ = rawdb.WriteCoinbaseLockupToSlice(big.NewInt(int64(1+r.Intn(1e9))), uint32(4*(1+r.Intn(5))), uint16(1+r.Intn(5)), id.delegates[r.Intn(3)])
+		case 3: // record with height 0 (treated as absent) / elements at the uint16 limit
+			if r.Bool() {
+				old, _ = rawdb.WriteCoinbaseLockupToSlice(big.NewInt(77), 0, 3, id.delegates[0])
+			} else {
+				old, _ = rawdb.WriteCoinbaseLockupToSlice(big.NewInt(77), 8, 65535, common.Zero)
+			}
+		}
+		if old != nil {
+			db.Put(key, old)
+		}
+		var delegate common.Address
+		var dbytes []byte
+		switch r.Pick(3, 5, 1) {
+		case 0:
+			delegate = common.Zero
+		case 1:
+			delegate = id.delegates[r.Intn(3)]
+			dbytes = delegate.Bytes()
+		case 2:
+			delegate = common.BytesToAddress(make([]byte, 20), loc) // 20 zero bytes given explicitly
+			dbytes = make([]byte, 20)
+		}
+		value := big.NewInt(int64(1 + r.Intn(1e9)))
+		unlock := uint64(4 + r.Intn(40))
+		batch := db.NewBatch()
+		batch.SetPending(true)
+		var obs string
+		func() {
+			defer func() {
+				if e := recover(); e != nil {
+					obs = "BErr"
+					rn.rep.Count("addlock:panic")
+				}
+			}()
+			deleted, oldData, k2, _, newHash, err := vm.AddNewLock(sdb, batch, owner, miner, delegate, common.OneInternal(loc), lb, unlock, epoch, value, loc, logger, common.Hash{}, true)
+			if err != nil || newHash == (common.Hash{}) {
+				obs = "BErr"
+				rn.rep.Count("addlock:error")
+				return
+			}
+			batch.Write()
+			nv, _ := db.Get(k2)
+			if !bytes.Equal(k2, key) {
+				obs = "BErr"
+				return
+			}
+			if deleted {
+				obs = fmt.Sprintf("(BUpdated %s %s)", cb(oldData), cb(nv))
+				rn.rep.Count("addlock:updated")
+				if old != nil && !bytes.Equal(oldData, old) {
+					// independent monitor: the undo bytes must be the bytes that were stored
+					rn.rep.Fail("lockup-undo-record-carries-new-delegate", fmt.Sprintf("AddNewLock returned oldLockupData %x for a record that was %x", oldData, old),
+						caseJSON{Id: cid, Kind: "addlock", AddLock: &addLockCase{Old: hlib.Hex(old), Seed: seed}})
+				}
+			} else {
+				obs = fmt.Sprintf("(BCreated %s)", cb(nv))
+				rn.rep.Count("addlock:created")
+			}
+		}()
+		oldTerm := "None"
+		if old != nil {
+			oldTerm = "(Some " + cb(old) + ")"
+		}
+		term := fmt.Sprintf("C10.CAddLock %d %s %s %d %d %s %s", cid, oldTerm, value.String(), unlock, params.CoinbaseEpochBlocks, cb(dbytes), obs)
+		rn.cw.Add(term, caseJSON{Id: cid, Kind: "addlock", AddLock: &addLockCase{Old: hlib.Hex(old), Value: value.String(), Unlock: unlock, Delegate: hlib.Hex(dbytes), Seed: seed}})
+		rn.rep.Evaluations++
+		rn.rep.TracesValidated++
+		rn.rep.Nontrivial("addlock/" + strings.SplitN(obs, " ", 2)[0] + fmt.Sprint(len(old), len(dbytes)))
+	}
+}
+
+// ---------------------------------------------------------------- main
+
+func main() {
+	f := hlib.ParseFlags()
+	logger = hlib.QuietLogs()
+	if os.Getenv("VLOG") != "" {
+		log.Global.SetOutput(os.Stderr)
+	}
+	setSchedule()
+	makeIdentities()
+	var err error
+	tmpDir, err = os.MkdirTemp("", "verif-c10-")
+	if err != nil {
+		panic(err)
+	}
+	defer os.RemoveAll(tmpDir)
+	rep := hlib.NewReport("C10", "a case = one real HeaderChain.SetCurrentHeader between two blocks of a tree of real blocks (base chain + 2..3 branches of depth 1..5 built by the real worker: "+
+		"Qi coinbases, cross-zone Qi transfers, conversions, signed Qi spends, trimming, lockup-contract coinbases with/without delegate, claims) on memorydb/leveldb/pebble, or one real vm.AddNewLock call; "+
+		"non-trivial = at least one block rolled back whose undo records are non-empty; distinct by (blocks rolled back, blocks re-appended, set of undo-record kinds involved)")
+	cw := hlib.NewCaseWriter(f.Out, "From Coq Require Import List NArith Bool.\nFrom GQ Require Import Lib.Key Lib.SMap Model.C10.\nImport ListNotations.\nLocal Open Scope N_scope.\n", "C10.case", 12)
+	rn := &runner{rep: rep, cw: cw, tier: f.Tier, nextID: 1}
+	rng := hlib.NewRng(f.Seed)
+
+	backends := []string{"memorydb", "leveldb", "pebble"}
+	mk := func(i int, kind, backend string, seed uint64) *scenario {
+		s := &scenario{ID: i, Seed: seed, Backend: backend, Kind: kind}
+		if kind == "f6" {
+			s.allowDelegateChange = true
+		}
+		return s
+	}
+	if f.Replay != "" {
+		var c caseJSON
+		hlib.ReadReplayCase(f.Replay, &c)
+		if c.Kind == "addlock" && c.AddLock != nil {
+			rn.addLockOne(c.AddLock.Seed, c.Id)
+		} else {
+			s := mk(c.Scenario, c.ScnKind, c.Backend, c.ScnSeed)
+			s.allowDelegateChange, s.noLockups = c.DelegChg, c.NoLockup
+			rn.nextID = 1
+			rn.runScenario(s)
+		}
+		cw.Close()
+		rep.Write(f.Out)
+		os.Exit(0)
+	}
+
+	// corpus first: one scenario per known finding / boundary shape, on every backend
+	sid := 0
+	for _, bk := range backends {
+		for _, kind := range []string{"f6", "deep"} {
+			rn.runScenario(mk(sid, kind, bk, 1000+uint64(sid)))
+			sid++
+		}
+	}
+	rn.addLockCases(rng.Fork(), 120)
+	// random scenarios
+	for i := 0; i < f.N; i++ {
+		s := mk(sid, "random", backends[i%len(backends)], rng.Next())
+		if i%7 == 3 {
+			s.allowDelegateChange = true
+		}
+		if i%11 == 5 {
+			s.noLockups = true
+		}
+		rn.runScenario(s)
+		sid++
+	}
+	cw.Close()
+	rep.Write(f.Out)
+	if os.Getenv("C10_TIMING") != "" {
+		fmt.Fprintln(os.Stderr, "open", tOpen, "close", tClose, "gen", tGen, "switch", tSwitch)
+	}
+	_ = filepath.Join
+	os.Exit(0)
 }
